@@ -51,6 +51,9 @@ fn main() {
                     std::process::exit(2);
                 }
             };
+            if file.class == "process-abort" || file.class == "build-divergence" {
+                std::process::exit(replay_two_builds(&args[2], &file));
+            }
             work::install_panic_hook();
             let (hit, hash) = replay::replay(&file);
             match hit {
@@ -69,6 +72,14 @@ fn main() {
                     std::process::exit(0);
                 }
             }
+        }
+        "transcript" => {
+            // executes the configuration of a replay file and prints its hashes (used by C16/C17 replays)
+            let text = std::fs::read_to_string(&args[2]).expect("read");
+            let file: replay::ReplayFile = serde_json::from_str(&text).expect("parse");
+            work::install_panic_hook();
+            let rec = work::execute(&file.cfg, 1);
+            println!("T {:016x} {:016x}", rec.sim.event_hash, work::transcript_hash(&rec));
         }
         "one" => {
             work::install_panic_hook();
@@ -106,6 +117,8 @@ fn worker(a: &[String]) {
     let to: u64 = a[4].parse().expect("to");
     let outdir = a[5].clone();
     let wid: usize = a[6].parse().expect("wid");
+    let variant = a.get(7).cloned().unwrap_or_else(|| "shipped".to_string());
+    let mut transcripts: Vec<u8> = Vec::new();
     let known = parent::load_known();
     let mut st = stats::Stats::default();
     let mut hashes: Vec<u64> = Vec::new();
@@ -124,6 +137,9 @@ fn worker(a: &[String]) {
         let rec = work::execute(&cfg, run_no);
         let (findings, facts) = oracle::evaluate(&cfg, &rec);
         st.record_run(&cfg, &rec, &facts);
+        transcripts.extend_from_slice(&idx.to_le_bytes());
+        transcripts.extend_from_slice(&rec.sim.event_hash.to_le_bytes());
+        transcripts.extend_from_slice(&work::transcript_hash(&rec).to_le_bytes());
         if cfg.threads.len() >= 2 && rec.sim.cross_thread_conflicts > 0 {
             hashes.push(rec.sim.conflict_hash);
         }
@@ -181,6 +197,8 @@ fn worker(a: &[String]) {
         }
     }
     st.known_hits = known_hits;
+    std::fs::write(format!("{outdir}/transcripts-{variant}-{wid}.bin"), &transcripts)
+        .expect("write transcripts");
     let spath = format!("{outdir}/stats-{wid}.json");
     std::fs::write(&spath, serde_json::to_string(&st).expect("json")).expect("write stats");
     let hpath = format!("{outdir}/hashes-{wid}.bin");
@@ -191,4 +209,38 @@ fn worker(a: &[String]) {
     std::fs::write(&hpath, bytes).expect("write hashes");
     let mut o = stdout.lock();
     let _ = writeln!(o, "D {wid}");
+}
+
+/// Replays a process-abort / build-divergence violation: the run is executed by the shipped build
+/// (this executable) and by the checked build, each in a process of its own.
+fn replay_two_builds(path: &str, file: &replay::ReplayFile) -> i32 {
+    let exe = std::env::current_exe().expect("current exe");
+    let checked = std::env::var("ORXSIM_CHECKED_BIN").unwrap_or_default();
+    let mut outs: Vec<Option<String>> = Vec::new();
+    let mut bins = vec![exe];
+    if std::path::Path::new(&checked).exists() {
+        bins.push(std::path::PathBuf::from(checked));
+    }
+    for b in &bins {
+        let o = std::process::Command::new(b).arg("transcript").arg(path).output();
+        match o {
+            Ok(o) if o.status.success() => {
+                let t = String::from_utf8_lossy(&o.stdout);
+                outs.push(t.lines().find(|l| l.starts_with("T ")).map(|l| l.to_string()));
+            }
+            _ => outs.push(None),
+        }
+    }
+    let aborted = outs.iter().any(|o| o.is_none());
+    let differ = outs.len() == 2 && outs[0] != outs[1];
+    if file.class == "process-abort" && aborted {
+        println!("REPRODUCED property={} class=process-abort hash_match=true message=a build of the simulator was terminated while executing this run: {:?}", file.property, outs);
+        return 1;
+    }
+    if file.class == "build-divergence" && (differ || aborted) {
+        println!("REPRODUCED property={} class=build-divergence hash_match=true message=transcripts of the shipped and the checked build: {:?}", file.property, outs);
+        return 1;
+    }
+    println!("NOT-REPRODUCED property={} class={}", file.property, file.class);
+    0
 }
